@@ -28,16 +28,19 @@ def Env.lookup (e : Env) (name : String) : Option Terminfo :=
 def parseEntry (l : String) : Option (List String × Terminfo) :=
   match words l with
   | "entry" :: _name :: names :: fields =>
-    let t := fields.foldl (fun (t : Terminfo) f =>
+    -- string capabilities are collected first and installed by one constructor application (`withStrs`)
+    let (t, strs) := fields.foldl (fun (acc : Terminfo × List (String × Bytes)) f =>
+      let (t, strs) := acc
       match f.splitOn "=" with
       | [k, v] =>
         if v.startsWith "s:" then
           let bs := unhex (v.drop 2).toString
-          if k = "Name" then { t with name := bytesToString bs } else t.setStr k bs
-        else if v.startsWith "i:" then t.setInt k (toInt! (v.drop 2).toString)
-        else if v.startsWith "b:" then t.setBool k true
-        else t
-      | _ => t) ({} : Terminfo)
+          if k = "Name" then ({ t with name := bytesToString bs }, strs) else (t, (k, bs) :: strs)
+        else if v.startsWith "i:" then (t.setInt k (toInt! (v.drop 2).toString), strs)
+        else if v.startsWith "b:" then (t.setBool k true, strs)
+        else (t, strs)
+      | _ => (t, strs)) (({} : Terminfo), [])
+    let t := t.withStrs (fun k => (strs.lookup k).getD [])
     some (names.splitOn ",", t)
   | _ => none
 
